@@ -835,7 +835,6 @@ def run(rep: C.Report, tier: str) -> int:
     rep.coverage["correspondence_disagreements"] = len(suspicious)
 
     # ---- failing-input search on every disagreement
-    seen_keys = set()
     for g, case, obs, why in suspicious[:40]:
         if g in ("leapfrog", "lf_exact", "lf_tol"):
             if obs is not None and obs.get("status") == "exception":
@@ -847,14 +846,12 @@ def run(rep: C.Report, tier: str) -> int:
                 key = KEY_D8 if (case["bounds"] is not None and case["mass"][0] == "matrix") else "C07/reversibility"
                 viol(key, bad, {"kind": "reversibility", "case": describe(case)}, True)
             else:
-                seen_keys.add("leapfrog")
                 viol("C07/correspondence/leapfrog",
                               "run_leapfrog and the model disagree; forward-flip-forward still returns to the start "
                               "on this input (see the energy / momentum oracles below)",
                               {"theorem_or_correspondence": "Model.Leapfrog.check_exact / check_tol",
                                "case": describe(case), "impl_output": ser(obs)}, False)
         elif g in ("energy", "en_exact", "en_tol"):
-            seen_keys.add("energy")
             viol("C07/correspondence/energy", f"hamiltonian / kinetic_energy and the model disagree ({why})",
                           {"theorem_or_correspondence": "Model.Leapfrog.check_energy_exact / check_energy_tol",
                            "case": describe(case), "impl_output": ser(obs)}, False)
